@@ -16,15 +16,14 @@ import (
 // with THE OBJECT THE CRON JOB HOLDS (the argument AddCronJob handed to gocron), not with a fresh read.
 
 // VerifJobPrepare makes every job created from now on wait for its first interval (≥ 60 s) instead of running
-// at once when the scheduler starts; together with VerifJobQuiesce no cron job ever fires during a case.
+// at once; a case lasts milliseconds and removes its jobs at the end, so no cron job ever fires during a case.
+// The scheduler is left RUNNING (AddCronJob starts it on every call): stopping and re-starting it would run every
+// job that has been scheduled once immediately (gocron flips startsImmediately after the first scheduling).
 func VerifJobPrepare() { s.WaitForScheduleAll() }
 
-// VerifJobQuiesce stops the scheduler's timers (AddCronJob starts the scheduler on every call).
-func VerifJobQuiesce() {
-	if s.IsRunning() {
-		s.Stop()
-	}
-}
+// VerifJobQuiesce: nothing to do (kept as the one place where the suite hands control back after a request that
+// may have started the scheduler).
+func VerifJobQuiesce() {}
 
 // VerifJobAlert returns the *AlertDetails captured by the cron job tagged with the alert id: gocron keeps the
 // arguments of DoWithJobDetails in the unexported field Job.jobFunction.parameters.
